@@ -32,7 +32,7 @@ fn run_failures(scn: &LoopScn, r: &RunResult, out: &LoopOut, allow_panic: bool) 
     if let Some(m) = &r.main_panic {
         vs.push(v("harness_panic", format!("simulated main thread panicked: {m}")));
     }
-    if !allow_panic || scn.panic.is_none() {
+    if !allow_panic || (scn.panic.is_none() && scn.panic2.is_none()) {
         if let Some(m) = &out.caller_panic {
             vs.push(v(
                 "unexpected_panic",
@@ -1107,12 +1107,12 @@ pub fn check_c08(scn: &LoopScn, r: &RunResult, out: &LoopOut) -> Vec<Violation> 
     // (4) a panic on any thread ends the run with a panic on the caller.
     if let Some(f) = &r.failure {
         match f {
-            Failure::Deadlock { blocked } if scn.panic.is_some() => {
+            Failure::Deadlock { blocked } if scn.panic.is_some() || scn.panic2.is_some() => {
                 vs.push(v(
                     "hang_on_panic",
                     format!(
                         "benchmarked function / generator panicked on thread(s) {:?} and the run hangs instead of panicking on the caller; blocked: {}",
-                        scn.panic.as_ref().map(|p| p.tids.clone()).unwrap_or_default(),
+                        scn.panic.iter().chain(scn.panic2.iter()).flat_map(|p| p.tids.clone()).collect::<Vec<_>>(),
                         blocked.iter().map(|(t, w)| format!("thread {t} in {w}")).collect::<Vec<_>>().join(", ")
                     ),
                 ));
